@@ -1,6 +1,6 @@
 #!/usr/bin/env python3
 """C11 sets: B1 tours of MC_Set + B2 random set programmes (TraceKs.tla)."""
-import common, ks
+import common, ks, sched
 tier = common.tier_arg()
 LABELS = ('sadd', 'srem', 'sismember', 'scard', 'smembers', 'smove', 'spop', 'srandmember', 'sunion', 'sinter', 'sdiff', 'sunionstore', 'sinterstore', 'sdiffstore')
 ks.family_check(
@@ -9,4 +9,4 @@ ks.family_check(
     b2_families=['set'],
     level_text="", assumptions=['reference semantics = Redis command reference as transcribed in spec/KsSet.tla', 'STORE onto a destination of another type may overwrite or reply WRONGTYPE (DESIGN.md 2.4)', 'random commands: every legal reply is enumerated in B1 and accepted in B2'],
     b2_progs=400 if tier == "quick" else 6000,
-    label_filter=lambda b: b.split(".")[0] in LABELS)
+    label_filter=lambda b: b.split(".")[0] in LABELS, extra=sched.family_extra("C11", "set"))
